@@ -31,13 +31,17 @@ where
 
     fn patch(&self, new: Self::Value) {
         let path = self.path().into_iter().collect::<StorePath>();
+        let mut changed = Vec::new();
         if let Some(mut writer) = self.writer() {
             // don't track the writer for the whole store
             writer.untrack();
-            let mut notify = |path: &StorePath| {
-                self.triggers_for_path(path.to_owned()).notify();
-            };
+            let mut notify = |path: &StorePath| changed.push(path.to_owned());
             writer.patch_field(new, &path, &mut notify);
+        }
+        // notify only now that the write guard has been dropped: a subscriber that runs
+        // synchronously (an `ImmediateEffect`) has to be able to read the patched value
+        for path in changed {
+            self.triggers_for_path(path).notify();
         }
     }
 }
